@@ -540,6 +540,13 @@ def run(ctx):
         env = {"TSAN_OPTIONS": "exitcode=66 halt_on_error=1 report_signal_unsafe=0"} if b == "t" else None
         rc, outs, err = run_parallel(exes[b], [cases[i][1] for i in idx], env=env)
         stderr_all += err
+        if rc == 124 or "HANG:" in err:
+            hung = [cases[i] for i, o in zip(idx, outs) if o.startswith("!crash")]
+            hl = [l for l in err.splitlines() if l.startswith("HANG:")]
+            ctx.violation("gids.c does not return (deadlock or endless loop) on a lookup/refresh history: %s" % (hl[0][:400] if hl else "harness timed out"),
+                          {"obligation": "correspondence C17 (termination)", "binary": b, "case_line": hung[0][1] if hung else "",
+                           "stderr": err[-2000:]})
+            return
         for i, o in zip(idx, outs):
             impl[i] = o
         ctx.log("implementation (%s) ran %d cases rc=%d" % (b, len(idx), rc))
